@@ -109,22 +109,30 @@ def replay(cases, timeout=3000):
 
 
 SHORT = [0, 0.3, 1, 3, 20, 2]
+EXPIRING = [3, 20, 1, 2, 0.3, 0]
 
 
-def timeouts(plan, sched):
+def timeouts(plan, sched, expiring=None):
     """Per call: the duration to pass to try_recv_timeout. A poll the model ends by readiness gets a
     long one (it must return early); one the model lets expire gets a short one (it must not return
     before it)."""
     ends = [s["k"] for s in sched if s["a"] == 0 and s["k"].startswith("pollret")]
     enters = [s for s in sched if s["a"] == 0 and s["k"] == "poll"]
-    out, k = [], 0
+    out, k, nexp = [], 0, 0
     for i, mode in enumerate(plan):
         if mode == "timeout":
             end = ends[k] if k < len(ends) else "pollret-expired"
             rdy = enters[k].get("rdy", False) if k < len(enters) else False
             k += 1
-            # readable before the call: any timeout will do, take a tiny one (0, 0.3, 1 ms ...)
-            out.append(SHORT[i % len(SHORT)] if (rdy or end != "pollret-ready") else 8000)
+            if rdy:
+                # readable before the call: any timeout will do, take a tiny one
+                out.append(SHORT[i % len(SHORT)])
+            elif end != "pollret-ready":
+                # the wait expires: the first expiring call of a schedule gets 3 ms, then 20, 1, 2, 0.3, 0
+                out.append((expiring or EXPIRING)[nexp % len(expiring or EXPIRING)])
+                nexp += 1
+            else:
+                out.append(8000)
         else:
             out.append(0)
     return out
@@ -163,8 +171,10 @@ def judge(case, v):
     for i, c in enumerate(calls):
         if case["plan"][i] == "timeout" and "elapsed_us" in c:
             d = case.get("tmo", [4] * len(calls))[i]
-            if c["res"] == "empty" and c["elapsed_us"] < int(d) * 1000:
-                return "try_recv_timeout(%s ms) reported 'empty' after only %d us" % (d, c["elapsed_us"]), v.get("matched")
+            # measured from the moment the thread was let into poll() (time parked at a gate does not count)
+            waited = c.get("poll_us", c["elapsed_us"])
+            if c["res"] == "empty" and waited < int(d) * 1000:
+                return "try_recv_timeout(%s ms) reported 'empty' after only %d us" % (d, waited), v.get("matched")
             if v.get("matched") and d >= 8000 and c["res"] != "empty" and c["elapsed_us"] > 6000000:
                 return "try_recv_timeout(%s ms) did not return early although a message/disconnection was there (%d us)" % (
                     d, c["elapsed_us"]), True
@@ -242,7 +252,7 @@ def campaign(pid, plans, what, extra_violation=None):
             sch = rnd.sample(sch, pl["limit"])
         cases = [{"msgs": pl["msgs"], "plan": pl["plan"], "procs": list(pl.get("procs", pl.get("crashers", ()))),
                   "sched": s["sched"], "rlog": s["rlog"], "delivered": s["delivered"], "slog": s.get("slog", []), "falseOk": s.get("falseOk", False),
-                  "tmo": timeouts(pl["plan"], s["sched"]), "attach": bool(pl.get("attach"))} for s in sch]
+                  "tmo": timeouts(pl["plan"], s["sched"], pl.get("expiring")), "attach": bool(pl.get("attach"))} for s in sch]
         # the first schedules tell whether the code still follows the model's system-call protocol at all; when
         # nearly none of them can be executed as generated, the rest would only cost time (each abandoned schedule
         # waits for its actors) and the comparison falls back to the call-level oracles
